@@ -16,14 +16,14 @@ PID = "C17"
 THEOREMS = [
     "same_edges_same_metric", "upper_eq_symmetric", "relabel_bracket", "relabelled_graph_same_metric",
     "relabelled_graphs_isometric", "hop_metric_is_shortest_path", "make_dm_returns_metric",
-    "relabelled_connected_graphs_isometric_dm", "pair_call_end_to_end", "collection_symmetric_zero_diag",
+    "relabelled_connected_graphs_isometric_dm", "pair_call_end_to_end", "dtype_roundtrip", "dtype_boundaries", "collection_symmetric_zero_diag",
     "collection_entries_are_pairwise", "largest_component_connected", "largest_component_is_metric", "largest_component_is_induced_metric",
     "pair_brackets", "collection_entries_bracket", "fallback_legacy_refuted", "fallback_legacy_always_raises",
 ]
 RULE = ("seeded generator: graphs with 1-7 vertices, connected or with 2-3 components (ties among largest components "
         "included); each pair is passed in 4-6 variants drawn from containers {nested list, dense, csr, csc, lil, csr_array} x "
         "encodings {upper, lower, mixed orientation, symmetric, weighted symmetric} x {identity, random relabelling}; "
-        "collections of 1-5 graphs (1 must raise); one long path (129 hops, needs int16); non-trivial = some graph is "
+        "collections of 1-5 graphs (1 must raise); graphs whose diameter is exactly 126..129 and 254..256 (dtype boundaries) against a single vertex / an edge; non-trivial = some graph is "
         "disconnected, or >= 3 distinct representations of a pair with >= 3 vertices, or a collection of >= 3 graphs; "
         "distinct = distinct JSON input")
 TRUSTED_BASE = [
@@ -121,6 +121,36 @@ def _pair_case(rng, G, H, cls, nvar=None):
     return {"cls": cls, "kind": "pair", "G": G, "H": H, "variants": variants, "seed": rng.randrange(2 ** 31)}
 
 
+def _boundary_cases(rng, tier):
+    """graphs whose diameter sits on a dtype boundary (int8: 127 | 128, uint8-ish: 255 | 256), against a single
+    vertex (exact distance diam/2, no search) or an edge, in several containers"""
+    out = []
+    diams = [126, 127, 128, 129, 254, 255, 256]
+    for dm in diams:
+        shapes = ["path"] if tier == "quick" else ["path", "caterpillar", "cycle"]
+        for shape in shapes:
+            n = dm + 1
+            if shape == "path":
+                e = [(i, i + 1) for i in range(n - 1)]
+            elif shape == "caterpillar":      # spine realises the diameter, two extra legs in the middle
+                e = [(i, i + 1) for i in range(n - 1)] + [(n // 2, n), (n // 3, n + 1)]
+                n += 2
+            else:                             # even cycle: diameter n/2
+                n = 2 * dm
+                e = [(i, (i + 1) % n) for i in range(n)]
+            G = c05._upper(n, e)
+            partners = [[[0]]] + ([[[0, 1], [0, 0]]] if tier != "quick" and shape == "path" and dm in (126, 128) else [])
+            for H in partners:
+                fmts = ["csr", "dense", "list"] if shape == "path" else [rng.choice(["csr", "csc", "dense"])]
+                out.append({"cls": "boundary%d" % dm, "kind": "pair", "G": G, "H": H, "seed": dm,
+                            "variants": [{"fmt": f, "enc": "upper", "relabelled": False, "VG": G, "VH": H} for f in fmts]})
+    return out
+
+
+def search_generate(rng, n):
+    return _boundary_cases(rng, "thorough") + generate(rng, "quick")
+
+
 def generate(rng, tier):
     n_pairs = 160 if tier == "quick" else 3000
     n_coll = 80 if tier == "quick" else 1500
@@ -137,10 +167,7 @@ def generate(rng, tier):
         enc = rng.choice(ENCODINGS)
         cases.append({"cls": "collection%d" % k, "kind": "coll", "fmt": rng.choice(FORMATS), "outer": rng.choice(["list", "tuple"]),
                       "graphs": [_encode(rng, g, enc, None) for g in graphs], "seed": rng.randrange(2 ** 31)})
-    # distances above 127: the smallest sufficient dtype is int16
-    P = c05._upper(130, [(i, i + 1) for i in range(129)])
-    cases.append({"cls": "longpath", "kind": "pair", "G": P, "H": [[0]], "seed": 1,
-                  "variants": [{"fmt": "csr", "enc": "upper", "relabelled": False, "VG": P, "VH": [[0]]}]})
+    cases += _boundary_cases(rng, tier)
     return cases
 
 
@@ -384,8 +411,11 @@ def _dmres(d):
 
 def _term(c, o):
     ts = []
+    if c["kind"] == "pair" and max(len(c["G"]), len(c["H"])) > 140:
+        return "SKIP"
     if c["kind"] == "pair":
-        for v, vo in zip(c["variants"], o["variants"]):
+        big = max(len(c["G"]), len(c["H"])) > 60      # cubic Floyd-Warshall in Coq: one representation is enough
+        for v, vo in list(zip(c["variants"], o["variants"]))[:1 if big else None]:
             for key, A in (("dmG", v["VG"]), ("dmH", v["VH"])):
                 r = _dmres(vo[key])
                 if r is None:
@@ -424,7 +454,9 @@ def coq_judge(cases, outs, results):
     terms, idx = [], []
     for i, (c, o) in enumerate(zip(cases, outs)):
         t = _term(c, o)
-        if t is None:
+        if t == "SKIP":
+            verdicts[i] = "skip:more than 140 vertices, model not run (the predicate knows the exact distance)"
+        elif t is None:
             verdicts[i] = "disagree:output not expressible in the model (unexpected exception type or shape): %s" % str(o)[:160]
         else:
             idx.append(i)
